@@ -99,6 +99,7 @@ func (demuxer *Demuxer) process() {
 	}()
 
 	for !demuxer.closed {
+		verifPoint("demux.before-pop", demuxer)
 		p := demuxer.recvQueue.Pop()
 		if p == nil {
 			if !demuxer.closed {
